@@ -122,3 +122,17 @@ VARIANTS += [
     V("twin-output-buffer-allocated-from-y0", BS, "        ys = [y0]\n", "        ys = y0.new_empty((len(ts), *y0.shape))\n        ys[0] = y0\n",
       expect="silent", more=BUF_MORE),
 ]
+
+VARIANTS += [
+    # R12.10's clock pre-pass (the step function replaced by a recorder): drivers that step off the grid ts[0] + k dt are
+    # reported from the (t0, t1) pairs alone and their states are not evaluated (round-1 / round-5 seeds that made the
+    # replay of the states run for an hour before the pre-pass existed)
+    V("replay-steps-snap-to-output-times", BS, "next_t = min(curr_t + step_size, ts[-1])\n",
+      "next_t = curr_t + step_size\n                if next_t > out_t - 1e-5 * step_size:\n                    next_t = out_t\n",
+      rule="R12.10"),
+    V("replay-continues-from-interpolated-output", BS, APPEND,
+      "            out_y = interp.linear_interp(t0=prev_t, y0=prev_y, t1=curr_t, y1=curr_y, t=out_t)\n"
+      "            if prev_t < out_t < curr_t:\n                curr_t, curr_y = out_t, out_y\n            ys.append(out_y)", rule="R12.10"),
+    V("twin-replay-clip-spelled-with-if", BS, "next_t = min(curr_t + step_size, ts[-1])\n",
+      "next_t = curr_t + step_size\n                if next_t > ts[-1]:\n                    next_t = ts[-1]\n", expect="silent"),
+]
